@@ -322,6 +322,21 @@ def run(repo, run, tier):
     run.check(R5, "declast.ExprParser.expression:as-written", ok,
               "BinaryOp(lhs, op, rhs) must be built from the operator token and the parsed right operand exactly as "
               "written (each assigned once per iteration): rewriting `a + -b` or `a - -b` changes values", dm.loc(ex))
+    # one token, one leaf: a Constant is the text of exactly one literal token (a sign stays a UnaryOp node - that node kind
+    # is what the printer parenthesises and what the octal rules look through)
+    pr = dm.func("ExprParser.primary")
+    leaves = [c for c in ast.walk(pr) if isinstance(c, ast.Call) and pyflow.is_name(c.func, "Constant")]
+    if not leaves:
+        raise AnalysisError("C11.R5: construction of Constant nodes not found in ExprParser.primary")
+    for c in leaves:
+        arg = c.args[0] if c.args else None
+        plain = arg is not None and dm.seg(arg) == "self.token.value"
+        conds = pyflow.path_atoms(c, stop=pr, seg=dm.seg)
+        run.check(R5, "declast.ExprParser.primary:Constant(%s)" % re.sub(r"\s+", "", str(dm.seg(arg)))[:30],
+                  plain and not any("PLUS" in t or "MINUS" in t or "value ==" in t for t, p_ in conds if p_),
+                  "a Constant is built from `%s` under %s: a literal leaf must be the text of the literal token alone; folding a "
+                  "sign into it hides the unary operator from the printer (`a - -1` is printed `a--1`) and from the octal "
+                  "rules (`-010`)" % (dm.seg(arg), sorted(conds)), dm.loc(c))
     # literals reach the evaluator exactly as written: the tokenizer never rewrites token text (a leading 0 is
     # what makes a literal octal)
     tk = dm.func("tokenize")
@@ -337,6 +352,39 @@ def run(repo, run, tier):
     pvc = [fn for q_, fn in tm.functions().items() if q_ == "PrintNodeIdentifier.visit_Constant"]
     okf = bool(pvc) and pat.has(pvc[0], "int(MV_V, 8)") and any("F_" in tm.seg(t) for n_ in ast.walk(pvc[0]) if isinstance(n_, ast.If)
                                                                 for t in [n_.test])
+    # ... and the test that selects the Fortran rendering is true for the key(s) the Fortran caller really passes
+    keys = set()
+    for c in ast.walk(am.tree):
+        if isinstance(c, ast.Call) and (pyflow.call_name(c) or "").endswith("print_node_identifier") and len(c.args) >= 3:
+            k_ = pyflow.const_str(c.args[2])
+            if k_:
+                keys.add(k_)
+    if not keys:
+        raise AnalysisError("C11.R5: no key is passed to print_node_identifier by ast.py")
+    if not any(k_.startswith("F_") for k_ in keys):
+        okf = False          # nobody asks for the Fortran rendering
+    if okf:
+        def key_test(test, key):
+            """value of a conjunct that only looks at self.key (None: it looks at something else)"""
+            t = tm.seg(test)
+            if isinstance(test, ast.Call) and isinstance(test.func, ast.Attribute) and tm.seg(test.func.value) == "self.key" \
+                    and test.func.attr in ("startswith", "endswith") and test.args and pyflow.const_str(test.args[0]) is not None:
+                return getattr(key, test.func.attr)(pyflow.const_str(test.args[0]))
+            if isinstance(test, ast.Compare) and len(test.ops) == 1 and tm.seg(test.left) == "self.key":
+                rhs = test.comparators[0]
+                if isinstance(test.ops[0], (ast.Eq, ast.NotEq)) and pyflow.const_str(rhs) is not None:
+                    return (key == pyflow.const_str(rhs)) == isinstance(test.ops[0], ast.Eq)
+                if isinstance(test.ops[0], (ast.In, ast.NotIn)) and isinstance(rhs, (ast.Tuple, ast.List, ast.Set)):
+                    vals_ = [pyflow.const_str(e) for e in rhs.elts]
+                    return (key in vals_) == isinstance(test.ops[0], ast.In)
+            return None
+        ifs = [n_ for n_ in ast.walk(pvc[0]) if isinstance(n_, ast.If) and "self.key" in tm.seg(n_.test)]
+        for i_ in ifs:
+            conj = i_.test.values if isinstance(i_.test, ast.BoolOp) and isinstance(i_.test.op, ast.And) else [i_.test]
+            for key in sorted(keys):
+                vals_ = [key_test(c_, key) for c_ in conj]
+                fires = all(v for v in vals_ if v is not None)
+                okf = okf and fires == key.startswith("F_")
     run.check(R5, "todict.PrintNodeIdentifier.visit_Constant:octal-for-Fortran", okf,
               "an octal literal inside a value expression (`A + 010`) must be printed in decimal for Fortran, which reads the "
               "digits 010 as ten", tm.loc(pvc[0]) if pvc else "shroud/todict.py")
